@@ -3,6 +3,7 @@
 use super::bb_c05::*;
 use super::bb_c06::*;
 use super::bb_c10::*;
+use super::bb_c11w::*;
 use super::bb_c12::*;
 use super::bb_c18::*;
 use super::bb_config::*;
@@ -230,6 +231,22 @@ fn bb_replays(ctx: &Ctx, report: &mut Report) -> u64 {
         }
         if r["engine"].as_str().is_some_and(|e| e.starts_with("BBINC-")) {
             match replay_inc_bb(r) {
+                Ok(res) => {
+                    n += 1;
+                    if let Some(msg) = res.violation {
+                        println!("  replay {} still fails: {}", path.display(), msg);
+                        report.fail(Failure {
+                            message: msg,
+                            signature: res.signature.unwrap_or_default(),
+                            replay: res.replay,
+                        });
+                    }
+                }
+                Err(e) => report.infra_errors.push(e),
+            }
+        }
+        if r["engine"] == "BB-c11w" {
+            match replay_c11w(r) {
                 Ok(res) => {
                     n += 1;
                     if let Some(msg) = res.violation {
@@ -500,6 +517,22 @@ fn c11(ctx: &Ctx) -> i32 {
     bb_replays(ctx, &mut report);
     bb_part(ctx, &mut report, "c11", BbParams { max_n: 8, failures: false, services: true, rendezvous: false }, ctx.tier.pick(96, 600),
         "real binary: services are exec-sleep shells, builds check kill -0 of the services they depend on at start and end; zinoma alive-and-idle after all builds iff a service stands behind a requested root; SIGTERM then exits < 5 s with no marked process left; non-trivial = service behind aggregate / requested and depended on / needed by a build", 111);
+    if ctx.replay.is_none() {
+        let pr = PropRun {
+            ctx,
+            engine: "BB-watch",
+            rule: "real binary with --watch: a requested service (alone / depending on a build / consuming the build's output / behind an aggregate) x 1-4 atomic changes (own input, the build's input, an unrelated file); at every idle point exactly one live instance, and it is the one started last; a relevant change restarts it with the current input, an unrelated change does not; nothing left after SIGTERM; non-trivial = at least one expected restart; distinct = layout x edit kinds x #restarts",
+            total_cases: ctx.tier.pick(24, 300),
+            threads: 6.min(ctx.threads),
+            max_shrink_iters: 20,
+            stream: 211,
+        };
+        let (part, failures) = run_prop(&pr, c11w_case, eval_c11w);
+        report.add(part);
+        for f in failures {
+            report.fail(f);
+        }
+    }
     report.finish()
 }
 
